@@ -8,7 +8,7 @@ from vt.props import c01 as C1
 
 META = dict(C1.META)
 META["outside"] = list(C1.META["outside"]) + [
-    "container-level lock-step beyond sequences of 2 actions (3 in the thorough tier) of the C06 action alphabet; IH5MFRecord at container level",
+    "container-level lock-step beyond sequences of 2 actions (thorough: 3 on the plain driver) of the C06 action alphabet; IH5MFRecord at container level",
     "IH5-specific API restrictions: dataset[...] = v on data of an older container is refused (copy_into_patch is the documented way); hard links are refused",
     "error messages and exception classes (only success/failure is compared)"]
 prechecks = C1.prechecks
@@ -31,7 +31,7 @@ def plan(tier, seed):
     k = 2 if tier == "quick" else 3
     for drv in ("h5", "ih5"):
         for first in range(len(HK.ACTIONS)):
-            parts.append(Part("vt.harness.cont", "seq", {"drv": drv, "k": k, "first": first, "init": first % 2, "c09": 1}, 900 if tier == "quick" else 8000, 300,
+            parts.append(Part("vt.harness.cont", "seq", {"drv": drv, "k": (k if drv == "h5" else 2), "first": first, "init": first % 2, "c09": 1}, 900 if tier == "quick" else 8000, 300,
                               "container level: same steps succeed/fail and leave the same data, metadata objects and query results on both drivers (common reference model), incl. patch boundaries and reopen points"))
     import vt.contactions as _CA
     for sel in _CA.mirror_sels():
